@@ -78,6 +78,60 @@ pub fn run(op: &str, args: &[String]) -> Option<String> {
                 Err(_) => "ERR".into(),
             }
         }
+        // ONE Script object grown step by step from parsed chunks, observed after every step.
+        // chunks joined by `/`, each `<mode>.<bytes>`: p = push every bit, a = push_array, n = from_script_bits(old bits ++ new bits),
+        // c = continue on a clone and push_array.  Observation per step: plain text, extended text, bytes (joined by `,`);
+        // two last fields: bytes after from_asm_string(to_asm_string()) or ERR, and whether the final object equals the script
+        // parsed from its own bytes rendered both ways (y/n)
+        "script.build_history" => {
+            let l = match args.get(0) {
+                Some(l) => l.clone(),
+                None => return Some("BADARG".into()),
+            };
+            let mut s = Script::default();
+            let mut out = vec![format!("{},{},{}", text(&s.to_asm_string()), text(&s.to_extended_asm_string()), show_bytes(&s.to_bytes()))];
+            if !l.is_empty() {
+                for ch in l.split('/') {
+                    let (m, d) = match ch.split_once('.') {
+                        Some(x) => x,
+                        None => return Some("BADARG".into()),
+                    };
+                    let bits = match expand(d).and_then(|b| Script::from_bytes(&b).ok()) {
+                        Some(x) => x.to_script_bits(),
+                        None => return Some("BADARG".into()),
+                    };
+                    match m {
+                        "p" => {
+                            for b in &bits {
+                                s.push(b.clone());
+                            }
+                        }
+                        "a" => s.push_array(&bits),
+                        "n" => {
+                            let mut all = s.to_script_bits();
+                            all.extend(bits.iter().cloned());
+                            s = Script::from_script_bits(all);
+                        }
+                        "c" => {
+                            let mut s2 = s.clone();
+                            s2.push_array(&bits);
+                            s = s2;
+                        }
+                        _ => return Some("BADARG".into()),
+                    }
+                    out.push(format!("{},{},{}", text(&s.to_asm_string()), text(&s.to_extended_asm_string()), show_bytes(&s.to_bytes())));
+                }
+            }
+            let back = match Script::from_asm_string(&s.to_asm_string()) {
+                Ok(s2) => show_bytes(&s2.to_bytes()),
+                Err(_) => "ERR".into(),
+            };
+            let same = match Script::from_bytes(&s.to_bytes()) {
+                Ok(p) => p.to_asm_string() == s.to_asm_string() && p.to_extended_asm_string() == s.to_extended_asm_string(),
+                Err(_) => false,
+            };
+            format!("OK:{};{};{}", out.join(";"), back, if same { "y" } else { "n" })
+        }
         // P2PKHAddress::from_pubkey_hash(h).get_locking_script()
         "p2pkh.locking_script" => {
             let h = match arg_bytes(args, 0) {
